@@ -30,7 +30,7 @@ ASSUMPTIONS = [
 FLOORS = {"repeat_kind": 0.2}
 
 OPS = ["sb20_default", "sb20_explicit", "sb21_default", "sb21_explicit", "sb21_export", "adv_params", "sb21_cfg_shared", "sb21_cfg_fresh",
-       "mbi_class", "mbi_config", "mbi_reload", "mbi_reload_given", "otfad_blob", "otfad_export", "iee_xts", "iee_ctr", "bee_prdb", "bee_kib", "bee_header", "hab_nonce",
+       "mbi_class", "mbi_config", "mbi_config_shared", "mbi_config_shared", "mbi_full", "mbi_full_shared", "mbi_reload", "mbi_reload_given", "otfad_blob", "otfad_export", "iee_xts", "iee_ctr", "bee_prdb", "bee_kib", "bee_header", "hab_nonce",
        "hab_dek_128", "hab_dek_256"]
 
 
@@ -102,12 +102,42 @@ def _do(op: str, idx: int, env: dict | None = None) -> dict[str, bytes]:
     if op == "mbi_class":
         obj = _mbi_cls()(app=bytes(64), load_address=0x1000, hmac_key=bytes(32))
         return {"mbi_ctr_iv": bytes(obj.ctr_init_vector)}
-    if op == "mbi_config":
+    if op in ("mbi_config", "mbi_config_shared"):
         obj = _mbi_cls()()
         from spsdk.image.mbi.mbi_mixin import Mbi_MixinCtrInitVector
 
-        Mbi_MixinCtrInitVector.mix_load_from_config(obj, {})  # configuration without CtrInitVector
+        # configuration without CtrInitVector; "shared": one configuration dictionary (loaded once) serves every image of the history
+        cfg = env.setdefault("mbi_cfg", {"family": "mimxrt595s"}) if op == "mbi_config_shared" else {}
+        Mbi_MixinCtrInitVector.mix_load_from_config(obj, cfg)
         return {"mbi_ctr_iv": bytes(obj.ctr_init_vector)}
+    if op in ("mbi_full", "mbi_full_shared"):
+        # a whole encrypted image through the configuration path of `nxpimage mbi export` (certificate block, keys, user key from
+        # files, no CtrInitVector); "shared": the configuration is read once and the same dictionary builds every image
+        from spsdk.image.mbi.mbi import get_mbi_class
+        from spsdk.utils.misc import load_configuration
+        from vf.gen import mbi as G
+
+        b = env.get("mbi_built")
+        if b is None:
+            cls = next(c for c in G.all_classes() if G.has(c, "MixinCtrInitVector"))
+            case = G.default_case(cls, 1)
+            case["opt"].update(iv=None, reloc=None)
+            if "tz" in case["opt"]:
+                case["opt"]["tz"]["mode"] = "default"
+            b = env["mbi_built"] = G.materialise(case, os.path.join(env["workdir"], "mbi_full"))
+        if op == "mbi_full":
+            obj, image = G.export_like_nxpimage(b.config_path)
+        else:
+            cfg = env.get("mbi_full_cfg")
+            if cfg is None:
+                cfg = env["mbi_full_cfg"] = load_configuration(b.config_path)
+            obj = get_mbi_class(cfg)()
+            obj.load_from_config(cfg, search_paths=[os.path.dirname(b.config_path), "."])
+            image = bytes(obj.export_image().export())
+        iv = bytes(obj.ctr_init_vector)
+        if iv not in image:
+            raise AssertionError("the exported image does not carry the object's counter IV")
+        return {"mbi_ctr_iv": iv}
     if op in ("mbi_reload", "mbi_reload_given"):
         # one image object that is loaded again and again, as a long-running tool does with its work object
         from spsdk.image.mbi.mbi_mixin import Mbi_MixinCtrInitVector
